@@ -73,7 +73,8 @@ def check_alignment_case(ctx, case):
             ctx.fail("fast-not-a-partition", {"window": w, "problems": pr}, monitor="M-PART")
             continue
         ctx.count("M-DIS")
-        pr, ref = monitors.check_disorders(continuum, fast, dissim)
+        # for times float32 cannot hold exactly the reference takes its pair costs from the compiled kernel on float32 arrays
+        pr, ref = monitors.check_disorders(continuum, fast, dissim, via="d_mat" if cspec.get("family") == "coarse" else "d")
         if pr:
             ctx.fail("fast-disorder-does-not-match-units", {"window": w, "problems": pr}, monitor="M-DIS")
         fd = float(fast.disorder)
@@ -206,7 +207,8 @@ def check_case(ctx, case):
         check_alignment_case(ctx, case)
 
 
-FAMS = ["longoverlap", "longoverlap", "nested", "nested", "grid", "touching", "identical", "dyadic", "generic", "tiny", "mixeddur", "mixeddur"]
+FAMS = ["longoverlap", "longoverlap", "nested", "nested", "grid", "touching", "identical", "dyadic", "generic", "tiny", "mixeddur", "mixeddur",
+        "coarse", "coarse"]
 
 
 def run(ctx):
